@@ -80,7 +80,11 @@ impl SVal {
             "bool" => Value::Bool(self.b),
             "num" => {
                 if !self.f && self.e >= 0 {
-                    Value::from(self.m * 10i64.pow(self.e as u32))
+                    // integers beyond i64 are stored as u64 (serde_json does the same when parsing)
+                    match 10i64.checked_pow(self.e as u32).and_then(|p| self.m.checked_mul(p)) {
+                        Some(i) => Value::from(i),
+                        None => Value::from((self.m as u64) * 10u64.pow(self.e as u32)),
+                    }
                 } else {
                     Value::Number(serde_json::Number::from_f64(num_f64(self.m, self.e)).expect("finite"))
                 }
@@ -104,7 +108,10 @@ impl SVal {
             "bool" => J::Bool(self.b),
             "num" => {
                 if !self.f && self.e >= 0 {
-                    J::Int(self.m * 10i64.pow(self.e as u32))
+                    match 10i64.checked_pow(self.e as u32).and_then(|p| self.m.checked_mul(p)) {
+                        Some(i) => J::Int(i),
+                        None => J::Float(num_f64(self.m, self.e)),
+                    }
                 } else {
                     J::Float(num_f64(self.m, self.e))
                 }
